@@ -76,6 +76,17 @@ void World::drain() {
     uint64_t budget = 200000, n0 = handlers_run;
     bool first = true;
     auto injection_point = [&](const char* where) -> bool {
+        if ((sc.fam & F_FINENET) && cur_prefix && !capped && deviations < sc.D) {
+            // in asio several I/O completions can be queued at once: another enabled network completion may be posted
+            // (and hence run) between two continuations of the current one
+            std::vector<Event> all, ev; enabled(all); Event c; c.k = Event::CONTINUE; ev.push_back(c);
+            for (auto& e : all) if (e.k == Event::CONNECT_OK || e.k == Event::WRITE_OK || e.k == Event::WRITE_COMPLETE_LATE || e.k == Event::READ_ALL || e.k == Event::READ_ERR || e.k == Event::READ_EOF || e.k == Event::SHUTDOWN_OK || e.k == Event::RELEASE) { Event x = e; x.deviation = true; ev.push_back(x); }
+            if (ev.size() > 1) {
+                int idx = choose(ev, *cur_prefix); if (idx < 0) return false;
+                ChoiceRec cr; cr.n = int(ev.size()); cr.chosen = idx; cr.dev = idx > 0; cr.what = ev[idx].str() + where; cr.digest = 0; choices.push_back(cr);
+                if (idx > 0) { deviations++; last_deviation_ns = now(); tr("event: " + ev[idx].str() + where + "  (deviation)"); apply(ev[idx]); }
+            }
+        }
         if (!((sc.fam & F_FINE) && (sc.fam & F_INJECT) && sc.inject && !injected && cur_prefix && !capped)) return true;
         // handler-granular injection point: [continue draining | perform the injected action now]
         std::vector<Event> ev(2); ev[0].k = Event::CONTINUE; ev[1].k = Event::INJECT; ev[1].deviation = true;
